@@ -30,11 +30,13 @@ THEOREMS = {
             "Cntgs.C17.allocPair_fault", "Cntgs.C17.construction_fault", "Cntgs.C17.reserve_fault_unchanged",
             "Cntgs.C17.copy_fault_unchanged"],
     "C05": ["Cntgs.C05.fields_greedy", "Cntgs.C05.alignUp_is_lowest", "Cntgs.C05.elements_greedy", "Cntgs.C05.units_tight",
-            "Cntgs.elemSize_fixed"],
+            "Cntgs.elemSize_fixed", "Cntgs.elemSize_bound"],
     "C01": ["Cntgs.C01.history_offset_table_partial", "Cntgs.C01.history_stride_partial", "Cntgs.C01.history_cap",
             "Cntgs.C01.erase_returns_follower", "Cntgs.VarInv.history", "Cntgs.FixInv.history", "Cntgs.VarInv.history_noreloc",
             "Cntgs.VarInv.abs_eq", "Cntgs.FixInv.abs_eq"],
-    "C02": ["Cntgs.C02.units_cover", "Cntgs.C02.fit_stride", "Cntgs.C02.history_stride_inside", "Cntgs.elemSize_fixed", "Cntgs.fixed_fit"],
+    "C02": ["Cntgs.C02.units_cover", "Cntgs.C02.fit_stride", "Cntgs.C02.history_stride_inside", "Cntgs.elemSize_fixed", "Cntgs.fixed_fit",
+            "Cntgs.elemSize_bound", "Cntgs.szGo_sound", "Cntgs.C02.fit_offset_table", "Cntgs.C02.reserve_room",
+            "Cntgs.C02.history_offset_table_inside"],
     "C06": ["Cntgs.C06.lifetimes_offset_table", "Cntgs.C06.lifetimes_stride", "Cntgs.C06.history_offset_table_partial",
             "Cntgs.C06.history_stride_partial", "Cntgs.C06.history_no_relocation", "Cntgs.C06.erase_destroys_exactly",
             "Cntgs.C06.overlap_counter_witness", "Cntgs.C06.moved_from_holds_nothing"],
@@ -42,7 +44,7 @@ THEOREMS = {
             "Cntgs.C09.swap_exchanges", "Cntgs.C09.self_operations", "Cntgs.C09.copy_assignment", "Cntgs.C09.move_assignment_steal",
             "Cntgs.C09.move_assignment_elementwise", "Cntgs.C09.moved_from_usable"],
     "C10": ["Cntgs.C10.within_capacity_is_noop", "Cntgs.C10.capacity_after", "Cntgs.C10.keeps_fixed_sizes",
-            "Cntgs.C10.keeps_contents_offset_table", "Cntgs.C10.keeps_contents_stride", "Cntgs.C10.repeated"],
+            "Cntgs.C10.keeps_contents_offset_table", "Cntgs.C10.keeps_contents_stride", "Cntgs.C10.repeated", "Cntgs.C02.reserve_room"],
     "C16": ["Cntgs.C16.emplace_keeps_addresses", "Cntgs.C16.pop_keeps_addresses", "Cntgs.C16.clear_keeps_addresses",
             "Cntgs.C16.eraseRange_keeps_front", "Cntgs.C16.erase_keeps_front", "Cntgs.C16.reserve_within_capacity",
             "Cntgs.C16.inplace_ops_no_allocation", "Cntgs.C16.ops_keep_block", "Cntgs.C16.capacity_changes_only_by_reserve",
